@@ -103,7 +103,16 @@ def c02(trace, case, end):
         # survived phases
         for first, last, mlo, mhi in ph.get(sym, []):
             if o['submit_idx'] > first:
-                continue            # not resting when this phase began
+                # not resting when this phase began. In the fast simulator an order created inside a chunk is still owed a fill in
+                # the LATER minutes of that chunk ("the first simulated minute, from its submission onward")
+                if fast and first < o['submit_idx'] <= last and (o['final_idx'] is None or o['final_idx'] > last):
+                    later = [m for m in range(max(mlo, o['submit_minute'] + 1), min(mhi, len(r) - 1) + 1) if r[m][0] <= o['price'] <= r[m][1]]
+                    if later:
+                        probs.append(('missed-fill', {'sim': simname, 'type': o['type'], 'reduce_only': o['reduce_only'], 'created_in_chunk': True},
+                                      '%s %s order %d at %r was submitted in minute %d and stayed active to the end of the chunk %d..%d although minute %d traded its price (range %r)'
+                                      % (o['type'], o['side'], o['oid'], o['price'], o['submit_minute'], mlo, mhi, later[0], r[later[0]])))
+                        break
+                continue
             if o['final_idx'] is not None and o['final_idx'] <= last:
                 continue            # became final inside (or before) this phase
             lo = min(r[m][0] for m in range(mlo, min(mhi, len(r) - 1) + 1))
